@@ -30,8 +30,8 @@ type DumpLint struct {
 	CtorNil      bool   `json:"ctor_nil"`
 	InstanceNil  bool   `json:"instance_nil"`
 	Configurable bool   `json:"configurable"`
-	ByNameOK     bool   `json:"by_name_ok"`    // ByName(name) returns this very lint
-	InBySource   int    `json:"in_by_source"`  // occurrences in BySource(source)
+	ByNameOK     bool   `json:"by_name_ok"`   // ByName(name) returns this very lint
+	InBySource   int    `json:"in_by_source"` // occurrences in BySource(source)
 }
 
 type Dump struct {
